@@ -72,6 +72,7 @@ long vs_spin_yields(void);
 unsigned long long vs_max_entry_gap(void);
 int vs_max_entry_gap_where(int* prev_reason, unsigned* tag);   // reason codes of the scheduling points that end / begin the longest gap
 long vs_cv_spurious_fired(void);
+long vs_cv_nonfifo(void);
 long vs_steps(void);
 uint64_t vs_event_hash(void);
 long vs_switches(void);
